@@ -7,8 +7,8 @@
    composed by the executor (api/simulator.py) with the active-mode bookkeeping of
    ExecModel.v.  A state is a finitely supported map occupation vector -> amplitude, kept
    as a list of (vector, amplitude) pairs; amplitudes live in any type [A] with a squared
-   modulus [nrm : A -> Q].  The code stores the normalised branch state phi / sqrt(w); the
-   model keeps the unnormalised projection phi and computes with w = |phi|^2.
+   modulus [nrm : A -> Q].  The code stores sqrt(c) * phi for a scale c the model carries
+   next to the unscaled projection phi (no square roots in the model).
    Definitions only. *)
 From Coq Require Import ZArith QArith List Bool Arith.
 From PV Require Import C03.ExecModel.
@@ -52,29 +52,56 @@ Section Projective.
   (* the outcomes with non-zero probability (every listed amplitude is non-zero) *)
   Definition outcomes (M : list nat) (psi : pstate) : list vec := vnodup (map (fun p => select M (fst p)) psi).
 
-  (* a branch of the exact (shots=None) execution: accumulated outcome, unnormalised state,
-     frequency, and the original labels of the modes of the state *)
-  Record pbranch := mkPB { pb_out : vec; pb_phi : pstate; pb_freq : Q; pb_reg : list nat }.
+  (* a branch of the exact (shots=None) execution: accumulated outcome, a vector phi and a
+     scale c such that the state the code holds is sqrt(c) * phi, the frequency, and the
+     original labels of the modes of the state.  The initial state is taken as given (c = 1,
+     whatever its norm); project_to_subspace multiplies by sqrt(1 / p) *)
+  Record pbranch := mkPB { pb_out : vec; pb_phi : pstate; pb_freq : Q; pb_reg : list nat;
+                           pb_scale : Q }.
+
+  (* squared norm of the state of a branch *)
+  Definition branch_norm (b : pbranch) : Q := (pb_scale b * weight (pb_phi b))%Q.
 
   (* one ParticleNumberMeasurement on the original labels L: the executor remaps L to
-     positions in the register; the step computes the probabilities from the NORMALISED
-     state (w' / w) and the executor multiplies by the frequency of the branch *)
+     positions in the register; the step reads the probability p(s) = c * |phi_s|^2 off the
+     state AS IT IS (no normalisation: an unnormalised state gives weights that sum to its
+     norm), returns the branch state sqrt(1/p) * (sqrt c * phi_s), and the executor multiplies
+     p by the frequency of the branch *)
   Definition measure_branch (L : list nat) (b : pbranch) : list pbranch :=
     let reg := pb_reg b in
     let M := remap_modes reg L in
     let d := length reg in
-    let w := weight (pb_phi b) in
+    let c := pb_scale b in
     map (fun s => let phi' := project d M s (pb_phi b) in
-                  mkPB (pb_out b ++ s) phi' ((weight phi' / w) * pb_freq b)%Q
-                       (delete_modes_from_active reg M))
+                  let p := (c * weight phi')%Q in
+                  mkPB (pb_out b ++ s) phi' (p * pb_freq b)%Q
+                       (delete_modes_from_active reg M) (c / p)%Q)
         (outcomes M (pb_phi b)).
+
+  (* _simulators/fock/pure/simulation_steps/measurements.py:post_select_photons: keeps the
+     unnormalised projection, no outcome, frequency 1 *)
+  Definition postselect_branch (L : list nat) (counts : vec) (b : pbranch) : list pbranch :=
+    let reg := pb_reg b in
+    let M := remap_modes reg L in
+    [mkPB (pb_out b) (project (length reg) M counts (pb_phi b)) (pb_freq b)
+          (delete_modes_from_active reg M) (pb_scale b)].
 
   Definition measure (L : list nat) (bs : list pbranch) : list pbranch := flat_map (measure_branch L) bs.
 
   Definition measure_seq (Ls : list (list nat)) (bs : list pbranch) : list pbranch :=
     fold_left (fun acc L => measure L acc) Ls bs.
 
-  Definition pinitial (d : nat) (psi : pstate) : list pbranch := [mkPB [] psi 1%Q (seq 0 d)].
+  (* measurements and post-selections in program order *)
+  Inductive pstep := PMeasure (L : list nat) | PPost (L : list nat) (counts : vec).
+  Definition run_pstep (st : pstep) (bs : list pbranch) : list pbranch :=
+    match st with
+    | PMeasure L => measure L bs
+    | PPost L counts => flat_map (postselect_branch L counts) bs
+    end.
+  Definition run_psteps (sts : list pstep) (bs : list pbranch) : list pbranch :=
+    fold_left (fun acc st => run_pstep st acc) sts bs.
+
+  Definition pinitial (d : nat) (psi : pstate) : list pbranch := [mkPB [] psi 1%Q (seq 0 d) 1%Q].
 End Projective.
 
 (* ---- running the model: Gaussian rationals *)
